@@ -118,6 +118,30 @@ impl AcquisitionLedger {
         Self { lots: Vec::new() }
     }
 
+    /// Restate every lot's share counts after a SPLIT (`split == true`, counts multiplied by
+    /// `ratio`) or an UNSPLIT (counts divided by `ratio`), and its price per share inversely,
+    /// so that each lot's cost and cost offset are what they were.
+    pub fn restate_share_counts(&mut self, ratio: Decimal, split: bool) {
+        if ratio.is_zero() {
+            return;
+        }
+        for lot in &mut self.lots {
+            if split {
+                lot.original_amount *= ratio;
+                lot.consumed *= ratio;
+                lot.reserved *= ratio;
+                lot.in_pool *= ratio;
+                lot.price /= ratio;
+            } else {
+                lot.original_amount /= ratio;
+                lot.consumed /= ratio;
+                lot.reserved /= ratio;
+                lot.in_pool /= ratio;
+                lot.price *= ratio;
+            }
+        }
+    }
+
     /// Add an acquisition to the ledger.
     pub fn add_acquisition(
         &mut self,
